@@ -58,6 +58,7 @@ type BedOpts struct {
 	RegexpRule       string // when set: a domain set with this regexp entry decides the first rule (REFUSED when it matches)
 	VerifyClientCert bool
 	NoClientCA       bool // with VerifyClientCert: no tls.ca configured (system roots decide)
+	ClientCAB        string // listener kinds "tlsB" / "httpsB": a second DoT / DoH listener whose client certificates must chain to this CA file instead
 	UdpRcvBuf        int
 	KeepRaw          bool // fake upstreams keep the wire bytes of every query
 }
@@ -272,6 +273,9 @@ func newBedOnce(c *Ctx, name string, o BedOpts) (*Bed, error) {
 			addr = fmt.Sprintf("@verif_%d_%s_%d", os.Getpid(), name, ports[i])
 		}
 		b.L[kind] = addr
+		if kind == "tlsB" || kind == "httpsB" {
+			proto = strings.TrimSuffix(kind, "B")
+		}
 		if kind == "udpmr" {
 			// UDP listener on the wildcard address with multi_routes: the response has to leave from the
 			// address the query was sent to. Clients talk to 127.0.0.2, which is not the address the
@@ -292,6 +296,9 @@ func newBedOnce(c *Ctx, name string, o BedOpts) (*Bed, error) {
 		}
 		if (kind == "tcp" || kind == "gnet" || kind == "tls") && o.TcpMaxConc > 0 {
 			fmt.Fprintf(&y, "    tcp:\n      max_concurrent_queries: %d\n", o.TcpMaxConc)
+		}
+		if kind == "tlsB" || kind == "httpsB" {
+			fmt.Fprintf(&y, "    tls:\n      cert: \"%s\"\n      key: \"%s\"\n      ca: \"%s\"\n      verify_client_cert: true\n", certPath, keyPath, o.ClientCAB)
 		}
 		if kind == "tls" || kind == "https" || kind == "quic" {
 			fmt.Fprintf(&y, "    tls:\n      cert: \"%s\"\n      key: \"%s\"\n", certPath, keyPath)
